@@ -840,6 +840,25 @@ theorem evaluateFrom_spec (ops : NumOps N) (wb : Coord → Cell N) (fuel : Nat) 
       exact (hext.evald d this).1
     · exact m2 d e h1 hw
 
+/-- marks alone (no `Good` needed): every formula cell of `order` ends evaluated -/
+theorem evaluateFrom_marks (ops : NumOps N) (wb : Coord → Cell N) (fuel : Nat) :
+    ∀ order s, NoEval s → (evaluateFrom ops wb fuel order s).oof = false →
+      ∀ c e, c ∈ order → wb c = .formula e →
+        (evaluateFrom ops wb fuel order s).mark c = some .evaluated := by
+  intro order
+  induction order with
+  | nil => intro s _ _ c e h; cases h
+  | cons d ds ih =>
+    intro s hn ho c e hc hw
+    rw [evaluateFrom_cons] at ho ⊢
+    have hext := evaluateFrom_ext ops wb fuel ds (evalCell ops wb fuel d s).2
+    have hn1 : NoEval (evalCell ops wb fuel d s).2 := hn.step (evalCell_ext ops wb fuel d s)
+    rcases List.mem_cons.mp hc with h1 | h1
+    · subst h1
+      have := evalCell_evaluated_after ops wb fuel c s e hw hn (hext.oof_false ho)
+      exact (hext.evald c this).1
+    · exact ih _ hn1 ho c e h1 hw
+
 theorem good_fresh (ops : NumOps N) (wb : Coord → Cell N) (old : Coord → Val N) :
     Good ops wb (St.fresh old) ∧ NoEval (St.fresh old) := by
   refine ⟨⟨?_, ?_, ?_⟩, ?_⟩
@@ -987,5 +1006,154 @@ theorem evaluateFrom_fuel_ok (ops : NumOps N) (wb : Coord → Cell N) (order : L
     apply ih
     exact evalCell_fuel_ok ops wb order hcov fuel c s
       (Nat.lt_of_le_of_lt (unm_le_length wb order s) hf) h
+
+/-! ### two runs in lock-step (used by C07: the stored values of a previous evaluation are
+     never read by the next one) -/
+
+theorem sumLoop_sim2 {S T : Type} (ops : NumOps N) (rd1 : Coord → S → Val N × S)
+    (rd2 : Coord → T → Val N × T) (R : S → T → Prop)
+    (h : ∀ c s t, R s t → (rd1 c s).1 = (rd2 c t).1 ∧ R (rd1 c s).2 (rd2 c t).2) :
+    ∀ cs acc s t, R s t → (sumLoop ops rd1 cs acc s).1 = (sumLoop ops rd2 cs acc t).1 ∧
+      R (sumLoop ops rd1 cs acc s).2 (sumLoop ops rd2 cs acc t).2 := by
+  intro cs
+  induction cs with
+  | nil => intro acc s t hst; exact ⟨rfl, hst⟩
+  | cons c cs ih =>
+    intro acc s t hst
+    obtain ⟨hv, hr⟩ := h c s t hst
+    simp only [sumLoop]
+    rw [hv]
+    cases (rd2 c t).1 with
+    | num n => exact ih _ _ _ hr
+    | err e => exact ⟨rfl, hr⟩
+    | str x => exact ih _ _ _ hr
+    | bool x => exact ih _ _ _ hr
+    | empty => exact ih _ _ _ hr
+
+theorem evalExpr_sim2 {S T : Type} (ops : NumOps N) (rd1 : Coord → S → Val N × S)
+    (rd2 : Coord → T → Val N × T) (R : S → T → Prop)
+    (h : ∀ c s t, R s t → (rd1 c s).1 = (rd2 c t).1 ∧ R (rd1 c s).2 (rd2 c t).2) :
+    ∀ e s t, R s t → (evalExpr ops rd1 e s).1 = (evalExpr ops rd2 e t).1 ∧
+      R (evalExpr ops rd1 e s).2 (evalExpr ops rd2 e t).2 := by
+  intro e
+  induction e with
+  | lit v => intro s t hst; exact ⟨rfl, hst⟩
+  | ref c => intro s t hst; exact h c s t hst
+  | bin op l r ihl ihr =>
+    intro s t hst
+    obtain ⟨hv, hr⟩ := ihl s t hst
+    simp only [evalExpr]
+    rw [hv]
+    cases toNum ops (evalExpr ops rd2 l t).1 with
+    | error e => exact ⟨rfl, hr⟩
+    | ok x =>
+      obtain ⟨hv2, hr2⟩ := ihr _ _ hr
+      simp only []
+      rw [hv2]
+      cases toNum ops (evalExpr ops rd2 r (evalExpr ops rd2 l t).2).1 with
+      | error e => exact ⟨rfl, hr2⟩
+      | ok y => exact ⟨rfl, hr2⟩
+  | iff c a b ihc iha ihb =>
+    intro s t hst
+    obtain ⟨hv, hr⟩ := ihc s t hst
+    simp only [evalExpr]
+    rw [hv]
+    cases toBool ops (evalExpr ops rd2 c t).1 with
+    | error e => exact ⟨rfl, hr⟩
+    | ok x =>
+      cases x with
+      | true => exact iha _ _ hr
+      | false => exact ihb _ _ hr
+  | iferror a b iha ihb =>
+    intro s t hst
+    obtain ⟨hv, hr⟩ := iha s t hst
+    simp only [evalExpr]
+    rw [hv]
+    cases hx : (evalExpr ops rd2 a t).1 with
+    | err e => exact ihb _ _ hr
+    | num n => exact ⟨rfl, hr⟩
+    | str x => exact ⟨rfl, hr⟩
+    | bool x => exact ⟨rfl, hr⟩
+    | empty => exact ⟨rfl, hr⟩
+  | iserror a iha =>
+    intro s t hst
+    obtain ⟨hv, hr⟩ := iha s t hst
+    simp only [evalExpr]
+    rw [hv]
+    cases (evalExpr ops rd2 a t).1 with
+    | err e => exact ⟨rfl, hr⟩
+    | num n => exact ⟨rfl, hr⟩
+    | str x => exact ⟨rfl, hr⟩
+    | bool x => exact ⟨rfl, hr⟩
+    | empty => exact ⟨rfl, hr⟩
+  | sum cs =>
+    intro s t hst
+    simp only [evalExpr]
+    exact sumLoop_sim2 ops rd1 rd2 R h cs _ s t hst
+
+/-- two evaluator states that differ only in the stored values of cells not yet evaluated -/
+structure Sim (s t : St N) : Prop where
+  mark : s.mark = t.mark
+  hits : s.hits = t.hits
+  oof : s.oof = t.oof
+  val : ∀ c, s.mark c = some .evaluated → s.val c = t.val c
+
+theorem evalCell_sim (ops : NumOps N) (wb : Coord → Cell N) :
+    ∀ fuel c s t, Sim s t → (evalCell ops wb fuel c s).1 = (evalCell ops wb fuel c t).1 ∧
+      Sim (evalCell ops wb fuel c s).2 (evalCell ops wb fuel c t).2 := by
+  intro fuel
+  induction fuel with
+  | zero =>
+    intro c s t h
+    rw [evalCell_zero, evalCell_zero]
+    exact ⟨rfl, ⟨h.mark, h.hits, rfl, h.val⟩⟩
+  | succ fuel ih =>
+    intro c s t h
+    cases hw : wb c with
+    | empty => rw [evalCell_empty ops wb fuel c s hw, evalCell_empty ops wb fuel c t hw]; exact ⟨rfl, h⟩
+    | plain v =>
+      rw [evalCell_plain ops wb fuel c s v hw, evalCell_plain ops wb fuel c t v hw]; exact ⟨rfl, h⟩
+    | formula e =>
+      have hmt : t.mark c = s.mark c := by rw [h.mark]
+      cases hm : s.mark c with
+      | some m =>
+        cases m with
+        | evaluating =>
+          rw [evalCell_evaluating ops wb fuel c s e hw hm,
+            evalCell_evaluating ops wb fuel c t e hw (hmt.trans hm)]
+          exact ⟨rfl, ⟨h.mark, by simp [h.hits], h.oof, h.val⟩⟩
+        | evaluated =>
+          rw [evalCell_evaluated ops wb fuel c s e hw hm,
+            evalCell_evaluated ops wb fuel c t e hw (hmt.trans hm)]
+          exact ⟨h.val c hm, h⟩
+      | none =>
+        rw [evalCell_none ops wb fuel c s e hw hm, evalCell_none ops wb fuel c t e hw (hmt.trans hm)]
+        have h1 : Sim (s.setMark c .evaluating) (t.setMark c .evaluating) := by
+          refine ⟨by simp [St.setMark, h.mark], h.hits, h.oof, ?_⟩
+          intro d hd
+          have hdc : d ≠ c := by intro hh; rw [hh] at hd; simp [St.setMark] at hd
+          have : s.mark d = some .evaluated := by simpa [St.setMark, hdc] using hd
+          simpa [St.setMark] using h.val d this
+        obtain ⟨hv, hr⟩ := evalExpr_sim2 ops (evalCell ops wb fuel) (evalCell ops wb fuel) Sim ih e _ _ h1
+        refine ⟨by rw [hv], ?_⟩
+        rw [hv]
+        refine ⟨by simp [St.finish, hr.mark], by simpa [St.finish] using hr.hits,
+          by simpa [St.finish] using hr.oof, ?_⟩
+        intro d hd
+        by_cases hdc : d = c
+        · simp [St.finish, hdc]
+        · have : (evalExpr ops (evalCell ops wb fuel) e (s.setMark c .evaluating)).2.mark d
+              = some .evaluated := by simpa [St.finish, hdc] using hd
+          simpa [St.finish, hdc] using hr.val d this
+
+theorem evaluateFrom_sim (ops : NumOps N) (wb : Coord → Cell N) (fuel : Nat) :
+    ∀ order s t, Sim s t → Sim (evaluateFrom ops wb fuel order s) (evaluateFrom ops wb fuel order t) := by
+  intro order
+  induction order with
+  | nil => intro s t h; exact h
+  | cons c cs ih =>
+    intro s t h
+    rw [evaluateFrom_cons, evaluateFrom_cons]
+    exact ih _ _ (evalCell_sim ops wb fuel c s t h).2
 
 end IronCalc.Memo
